@@ -685,6 +685,54 @@ macro_rules! sets_runner {
 sets_runner!(run_sets_fasta, fasta, crate::reader::fa::rec_json, Fasta);
 sets_runner!(run_sets_fastq, fastq, crate::reader::fq::rec_json, Fastq);
 
+macro_rules! records_runner {
+    ($fname:ident, $m:ident, $recjson:path, $variant:ident) => {
+        /// parallel_records: the generic per-record function (outputs are passed to the consumer by shared reference)
+        fn $fname(c: &ApiCase, ct: &Arc<Counters>, calls: &Arc<Mutex<Vec<String>>>) -> String {
+            use seq_io::$m::Record as _;
+            let reader = seq_io::$m::Reader::with_capacity(std::io::Cursor::new(c.x.clone()), c.cap);
+            let ct2 = ct.clone();
+            let stop_after = c.stop_after;
+            let calls2 = calls.clone();
+            let mut ncalls = 0usize;
+            let r: Result<Option<usize>, seq_io::$m::Error> = parallel::parallel_records(
+                reader,
+                c.nw,
+                c.q,
+                move |rec: seq_io::$m::RefRecord, d: &mut RecOut| {
+                    ct2.jitter();
+                    d.stale = false;
+                    d.head = rec.head().to_vec();
+                    d.n = rec.seq().len();
+                },
+                move |rec: seq_io::$m::RefRecord, d: &RecOut| {
+                    ncalls += 1;
+                    calls2.lock().unwrap().push(format!(
+                        "{{\"rec\":{},\"out\":{{\"head\":{},\"n\":{},\"stale\":{}}},\"rawlen\":{},\"tag\":0}}",
+                        $recjson(&rec, false, false),
+                        jb(&d.head),
+                        d.n,
+                        d.stale,
+                        rec.seq().len()
+                    ));
+                    if stop_after > 0 && ncalls >= stop_after {
+                        Some(ncalls)
+                    } else {
+                        None
+                    }
+                },
+            );
+            match r {
+                Ok(None) => "{\"k\":\"none\"}".into(),
+                Ok(Some(n)) => format!("{{\"k\":\"some\",\"n\":{}}}", n),
+                Err(e) => api_err_json(&ApiErr::$variant(e)),
+            }
+        }
+    };
+}
+records_runner!(run_records_fasta, fasta, crate::reader::fa::rec_json, Fasta);
+records_runner!(run_records_fastq, fastq, crate::reader::fq::rec_json, Fastq);
+
 fn run_api(c: &ApiCase, seed: u64) -> String {
     let sh: Shared = Arc::new(Mutex::new(Rec::default()));
     let ct = Arc::new(Counters::new(seed, true));
@@ -696,6 +744,8 @@ fn run_api(c: &ApiCase, seed: u64) -> String {
     let (c2, ct2, calls2, works2, ninit2) = (c.clone(), ct.clone(), calls.clone(), works.clone(), ninit.clone());
     let runner = std::thread::spawn(move || {
         let r = std::panic::catch_unwind(std::panic::AssertUnwindSafe(|| match (c2.api.as_str(), c2.fmt.as_str()) {
+            ("records", "fasta") => run_records_fasta(&c2, &ct2, &calls2),
+            ("records", _) => run_records_fastq(&c2, &ct2, &calls2),
             ("read_parallel", "fasta") => run_sets_fasta(&c2, &ct2, &calls2),
             ("read_parallel", _) => run_sets_fastq(&c2, &ct2, &calls2),
             (_, "fasta") => run_api_fasta(&c2, &ct2, &calls2, &works2, &ninit2),
